@@ -167,6 +167,14 @@ def run(ctx):
                     T.fail("spec", {"fn": "recv_data(skip)", "fragments": [f.hex() for f in frags]},
                            str(("ok", (1, m))), str(got2),
                            {"site": "WebSocket.recv_data", "class": "skip-passthrough", "shape": shape(m)})
+                # ... also through recv(): the text as str when it can be decoded, else the bytes as they are; never an exception
+                got3 = recv_text(frags, skip=True)
+                T.case(("api-skip-recv", m, tuple(frags)), nontrivial=len(frags) > 1, bucket="api_skip")
+                want3 = ("ok", m.decode("utf-8")) if ok else ("ok", m)
+                if got3 != want3:
+                    T.fail("spec", {"fn": "recv(skip)", "fragments": [f.hex() for f in frags]}, str(want3), str(got3),
+                           {"site": "WebSocket.recv", "class": "skip-passthrough", "shape": shape(m)},
+                           what="with validation off the payload must pass through recv() unchanged (no UnicodeDecodeError)")
             # close reason
             body = (1000).to_bytes(2, "big") + m
             ws, s = connected_ws([("D", server_frame(0x8, body))])
@@ -229,6 +237,13 @@ def replay(ctx, sc):
         want = ctx.spec.run([f"utf8spec {hx(s)}"])[0] == "1"
         got = bool(_utils.validate_utf8(s))
         return None if got == want else {"bytes": sc["bytes"], "impl": got, "spec": want}
+    if sc["fn"] == "recv(skip)":
+        frags = [bytes.fromhex(f) for f in sc["fragments"]]
+        m = b"".join(frags)
+        ok = ctx.spec.run([f"utf8spec {hx(m)}"])[0] == "1"
+        got = recv_text(frags, skip=True)
+        want = ("ok", m.decode("utf-8")) if ok else ("ok", m)
+        return None if got == want else {"want": str(want), "got": str(got)}
     if sc["fn"] in ("recv", "recv_data(skip)"):
         frags = [bytes.fromhex(f) for f in sc["fragments"]]
         m = b"".join(frags)
